@@ -19,6 +19,78 @@ type verifSchedEntry struct {
 	Phase int    `json:"phase"`
 	Gor   int    `json:"gor"`
 	Auto  bool   `json:"auto"`
+	Wake  bool   `json:"wake"`
+}
+
+// verifWakeLocker wraps the Locker of every sync.Cond created in the instrumented build: when cond.Wait
+// re-acquires the lock after a wake-up, the controller lets it proceed only when the schedule reaches the
+// corresponding "wake" entry (so a goroutine scheduled to take the lock first really gets it first).
+type verifWakeLocker struct{ sync.Locker }
+
+func verifWrapLocker(l sync.Locker) sync.Locker {
+	if l == nil {
+		return nil
+	}
+	return verifWakeLocker{l}
+}
+
+func (w verifWakeLocker) Lock() {
+	var pcs [6]uintptr
+	n := runtime.Callers(2, pcs[:])
+	frames := runtime.CallersFrames(pcs[:n])
+	fromWait := false
+	for {
+		fr, more := frames.Next()
+		if fr.Function == "sync.(*Cond).Wait" {
+			fromWait = true
+			break
+		}
+		if !more {
+			break
+		}
+	}
+	if fromWait {
+		verifWakePoint()
+	}
+	w.Locker.Lock()
+}
+
+func verifWakePoint() {
+	c := &verifCtl
+	start := time.Now()
+	for {
+		c.mu.Lock()
+		if !c.active || c.cur >= len(c.entries) || atomic.LoadInt32(&verifAtomicDepth) > 0 {
+			c.mu.Unlock()
+			return
+		}
+		e := c.entries[c.cur]
+		if e.Wake {
+			verifCtlAdvance()
+			c.mu.Unlock()
+			return
+		}
+		if e.Auto && time.Since(c.arrived) > verifSettle {
+			c.remain[e.Pos]--
+			verifCtlAdvance()
+			c.mu.Unlock()
+			continue
+		}
+		// no wake entry left in the schedule: this wake-up is beyond it
+		left := false
+		for _, x := range c.entries[c.cur:] {
+			if x.Wake {
+				left = true
+				break
+			}
+		}
+		if !left || time.Since(start) > verifPatience {
+			c.mu.Unlock()
+			return
+		}
+		c.mu.Unlock()
+		time.Sleep(200 * time.Microsecond)
+	}
 }
 
 type verifReplayFile struct {
@@ -55,6 +127,9 @@ func verifCtlAdvance() {
 func verifPoint(pos string) {
 	c := &verifCtl
 	verifLoad()
+	if os.Getenv("VERIF_TRACE") != "" {
+		fmt.Printf("VERIF-POINT %s (cursor %d)\n", pos, c.cur)
+	}
 	start := time.Now()
 	for {
 		c.mu.Lock()
@@ -214,3 +289,4 @@ func verifHook(name string) {
 		f()
 	}
 }
+func verifFireDeadline(id int) {}
